@@ -13,8 +13,9 @@ Local Open Scope Z_scope.
 
 (* certValidity, clockSkewAllowance, the literal bound in verifyRawCerts, and
    which certificate of the presented chain verifyRawCerts inspects:
-   1 = rawCerts[len(rawCerts)-1] (the pinned tree), 0 = rawCerts[0], the
-   certificate TLS authenticates (fixes/C18-verifier-leaf-of-chain.diff).
+   0 = rawCerts[0], the certificate TLS authenticates (the tree since a6acc86),
+   1 = rawCerts[len(rawCerts)-1] (what the tree did before; kept as a parameter
+   so that a regression is a changed constant, not a silently wrong model).
    All four are re-read from /repo on every run. *)
 Record params := mkParams { pV : Z; pS : Z; pMaxLife : Z; pLeafLast : Z }.
 
